@@ -225,6 +225,7 @@ TARGETS = {
         classes=[
             dict(file="happysimulator/components/datastore/eviction_policies.py", cls="LRUEviction", fields={"_order": "dict"}, methods={"on_access": dict(params={"key": "Z"}), "on_insert": dict(params={"key": "Z"}), "on_remove": dict(params={"key": "Z"}), "evict": dict(ret="opt Z"), "clear": {}}),
             dict(file="happysimulator/components/datastore/eviction_policies.py", cls="FIFOEviction", fields={"_order": "list Z"}, methods={"on_access": dict(params={"key": "Z"}), "on_insert": dict(params={"key": "Z"}), "on_remove": dict(params={"key": "Z"}), "evict": dict(ret="opt Z"), "clear": {}}),
+            dict(file="happysimulator/components/datastore/eviction_policies.py", cls="LFUEviction", fields={"_counts": "dict", "_min_count": "Z"}, methods={"on_access": dict(params={"key": "Z"}), "on_insert": dict(params={"key": "Z"}), "on_remove": dict(params={"key": "Z"}), "evict": dict(ret="opt Z"), "clear": {}}),
         ],
     ),
     # Memtable, synchronous API (the generator methods put/get are hand-modelled); keys and stored values are integers
